@@ -37,8 +37,13 @@ def _sha(path):
 
 def _base_cfg(fam, importer=False, mode=None):
     from harness import scenario_util as su
-    cfg = su.base_config(start=fam["start"], step=fam["step"], n_steps=fam["nsteps"], n_targets=fam["nt"], n_sensors=fam["ns"],
-                         decision="MunkresDecision", model="two_body", seed=3)
+    # minimal_init.json: one target (ISS) and sensors at shared sites (RTS MMW / RTS TRADEX are ~200 m apart, the MSSS
+    # telescopes ~100 m); the greedy policy makes several sensors observe the same target at the same epoch, so the
+    # importer's duplicate filter sees near-coincident but distinct observations
+    cfg = su.base_config(start=fam["start"], step=fam["step"], n_steps=fam["nsteps"], n_targets=1, n_sensors=fam["ns"],
+                         decision="MyopicNaiveGreedyDecision", model="two_body", seed=3, template="minimal_init.json",
+                         extra_targets=[su.target_cfg(50001 + i, sma_km=7100.0 + 200 * i, inc_deg=30.0 + 15 * i, ta_deg=40.0 * i)
+                                        for i in range(fam["nt"] - 1)])
     if importer:
         cfg["propagation"]["target_realtime_propagation"] = "t" not in mode
         cfg["propagation"]["sensor_realtime_propagation"] = "s" not in mode
@@ -243,7 +248,7 @@ def make_families(ctx: Ctx, rng):
         variants.append({"name": "thin_obs", "mode": "tso", "drop_obs": 2})
         variants.append({"name": "thin_obs3_extras", "mode": "o", "drop_obs": 3, "extras": 1})
         variants.append({"name": "extras_gap", "mode": "ts", "extras": 2, "extras_gap": 2})
-        fams.append({"start": start, "step": step, "nsteps": n, "nt": 2, "ns": 2, "variants": variants})
+        fams.append({"start": start, "step": step, "nsteps": n, "nt": 2, "ns": 4, "variants": variants})
     return fams
 
 
